@@ -88,6 +88,12 @@ struct s_resp { int status; size_t nheaders; size_t bodylen; uint8_t *body; };
 typedef int (*s_http_cb)(void *, const struct s_resp *);
 void *s_http_request(void *addrs, const char *method, const char *path, int nh, const uint8_t *body, size_t bodylen, size_t maxrlen, s_http_cb, void *);
 void s_http_cancel(void *);
+void *s_aes_expand(const uint8_t *key, size_t len);
+void s_aes_block(const void *k, const uint8_t in[16], uint8_t out[16]);
+void s_aes_free(void *k);
+void *s_ctr_init(const void *k, uint64_t nonce);
+void s_ctr_stream(void *st, const uint8_t *in, uint8_t *out, size_t len);
+void s_ctr_free(void *st);
 #ifdef __cplusplus
 }
 #endif
